@@ -42,6 +42,7 @@ func C03(r *core.Run) {
 	rule044(r)
 	rule105(r)
 	rule027(r)
+	rule163(r, hostMiddlewares(r))
 }
 
 type addSite struct {
